@@ -217,9 +217,7 @@ def id_width_code_in(data, c0, c1):
         requires(either(bits(data[3], 6, 4) == c0, bits(data[3], 6, 4) == c1))
 
 
-def nak_unpack_arbitrary(data):
-    if len(data) >= 3:
-        requires(data[1] * 256 + data[2] <= 1 + 6 * (4 + 4 * bits(data[0], 0, 0)) + 2 * bits(data[0], 1, 1))
+def nak_arbitrary_clauses(data):
     o = outcome(NakPdu.unpack, data)
     ensures("raises-only", o.ok or o.raised(ValueError, InvalidCrc, UnsupportedCfdpVersion))
     if o.ok:
@@ -232,31 +230,54 @@ def nak_unpack_arbitrary(data):
         ensures("segment-request-count", (1 + 2 * f + len(g.segment_requests) * 2 * f + 2 * bits(data[0], 1, 1)) == data[1] * 256 + data[2])
 
 
-NAK_ARB = dict(bounded="declared data-field length admits at most 2 segment requests", verifies=[NAK + "NakPdu.unpack"])
+def nak_unpack_arbitrary_short(data):
+    """ANY octet string whose declared data-field length cannot hold the two scope fields: every header, every buffer length"""
+    if len(data) >= 3:
+        requires(data[1] * 256 + data[2] < 1 + 2 * (4 + 4 * bits(data[0], 0, 0)) + 2 * bits(data[0], 1, 1))
+    nak_arbitrary_clauses(data)
 
 
-@obligation(["C06", "C09", "C10", "C04"], "NakPdu.unpack/arbitrary-idw1", **NAK_ARB)
+# branch_timeout_ms: the feasibility double-check of two-sided branches by the full solver mostly runs into its time limit on these
+# paths (sequence constraints of the refined buffer); a shorter limit only lets more (possibly infeasible) paths through
+NAK_ARB = dict(bounded="declared data field too short for the scope fields", verifies=[NAK + "NakPdu.unpack"], max_paths=4000,
+               branch_timeout_ms=120)
+
+
+@obligation(["C06", "C09", "C10", "C04"], "NakPdu.unpack/arbitrary-short-idw1", **NAK_ARB)
 def nak_unpack_arbitrary_1(data: Bytes):
     id_width_code_in(data, 0, 2)
-    nak_unpack_arbitrary(data)
+    nak_unpack_arbitrary_short(data)
 
 
-@obligation(["C06", "C09", "C10", "C04"], "NakPdu.unpack/arbitrary-idw2", **NAK_ARB)
+@obligation(["C06", "C09", "C10", "C04"], "NakPdu.unpack/arbitrary-short-idw2", **NAK_ARB)
 def nak_unpack_arbitrary_2(data: Bytes):
     id_width_code_in(data, 1, 4)
-    nak_unpack_arbitrary(data)
+    nak_unpack_arbitrary_short(data)
 
 
-@obligation(["C06", "C09", "C10", "C04"], "NakPdu.unpack/arbitrary-idw4", **NAK_ARB)
+@obligation(["C06", "C09", "C10", "C04"], "NakPdu.unpack/arbitrary-short-idw4", **NAK_ARB)
 def nak_unpack_arbitrary_4(data: Bytes):
     id_width_code_in(data, 3, 5)
-    nak_unpack_arbitrary(data)
+    nak_unpack_arbitrary_short(data)
 
 
-@obligation(["C06", "C09", "C10", "C04"], "NakPdu.unpack/arbitrary-idw8", **NAK_ARB)
+@obligation(["C06", "C09", "C10", "C04"], "NakPdu.unpack/arbitrary-short-idw8", **NAK_ARB)
 def nak_unpack_arbitrary_8(data: Bytes):
     id_width_code_in(data, 7, 6)
-    nak_unpack_arbitrary(data)
+    nak_unpack_arbitrary_short(data)
+
+
+@obligation(["C06", "C09", "C10", "C04"], "NakPdu.unpack/arbitrary-segreqs",
+            bounded="valid fixed header; declared data field <= scope + 2 segment requests + 15 octets", verifies=[NAK + "NakPdu.unpack"])
+def nak_unpack_arbitrary_segreqs(direction: EnumOf(Direction), mode: EnumOf(TransmissionMode), crc: EnumOf(CrcFlag),
+                                 large: EnumOf(LargeFileFlag), we: W2, ws: W2B, src: Int, seq: Int, dst: Int, extra: IntRange(0, 47),
+                                 rest: Bytes):
+    """a well-formed fixed header (any flags; arbitrary headers: C05 and arbitrary-short) that declares 0..47 octets behind the scope
+    fields (up to 5 / 2 segment requests and every remainder), followed by ANY octets"""
+    requires(ids_in_range(we, ws, src, seq, dst))
+    requires(extra <= 4 * fss_len(large) + 15)
+    data = pdu_header_octets(0, direction, mode, crc, large, 1 + 2 * fss_len(large) + extra + crc_len(crc), 0, 0, we, ws, src, seq, dst) + rest
+    nak_arbitrary_clauses(data)
 
 
 @obligation(["C11", "C06"], "NakPdu/setters", bounded="list length <= 2",
@@ -271,6 +292,8 @@ def nak_setters(mode: EnumOf(TransmissionMode), crc: EnumOf(CrcFlag), large0: En
     final = reqs1
     if reqs1 is None:
         final = []
+    # the final values fit the final width (values that do not fit make pack fail: NakPdu.pack/scalar, NakPdu.pack/list)
+    requires(both(fss_fits(large1, start), fss_fits(large1, end), all([both(fss_fits(large1, a), fss_fits(large1, b)) for (a, b) in final])))
     conf = mk_conf(we, ws, src, seq, dst, mode, crc, large0, Direction.TOWARDS_SENDER, SegmentationControl.NO_RECORD_BOUNDARIES_PRESERVATION)
     snap = snapshot(conf)
     pdu = NakPdu(conf, start, end, reqs0)
@@ -288,14 +311,11 @@ def nak_setters(mode: EnumOf(TransmissionMode), crc: EnumOf(CrcFlag), large0: En
                                      pdu.pdu_header.pdu_data_field_len == fresh.pdu_header.pdu_data_field_len))
     ensures("length-formula", pdu.pdu_header.pdu_data_field_len == 1 + (2 + 2 * len(final)) * fss_len(large1) + crc_len(crc))
     ensures("equal-to-fresh", both(pdu == fresh, fresh == pdu))
-    o = outcome(pdu.pack)
-    of = outcome(fresh.pack)
-    ensures("pack-as-fresh", iff(o.ok, of.ok))
-    if o.ok and of.ok:
-        ensures("octets-as-fresh", o.value == of.value)
-        ensures("packet_len", pdu.packet_len == len(o.value))
-        ensures("pack-twice", pdu.pack() == o.value)
-        ensures("still-equal", pdu == fresh)
+    raw = pdu.pack()
+    ensures("octets-as-fresh", raw == fresh.pack())
+    ensures("packet_len", pdu.packet_len == len(raw))
+    ensures("pack-twice", pdu.pack() == raw)
+    ensures("still-equal", pdu == fresh)
 
 
 @obligation(["C06"], "get_max_seg_reqs_for_max_packet_size_and_pdu_cfg",
@@ -458,7 +478,7 @@ def fin_rt_clauses(pdu, raw, suffix, conf, cc, dc, fs, fw, fv, items):
         ensures("rt-repack", g.pack() == raw)
 
 
-@obligation(["C06", "C09", "C04"], "FinishedPdu/roundtrip-scalar", verifies=[FIN + "FinishedPdu.unpack", FIN + "FinishedPdu._unpack_tlvs",
+@obligation(["C06", "C09", "C04"], "FinishedPdu/roundtrip-scalar", max_paths=4000, branch_timeout_ms=120, verifies=[FIN + "FinishedPdu.unpack", FIN + "FinishedPdu._unpack_tlvs",
                                                                              FIN + "FinishedPdu.__eq__"])
 def finished_roundtrip_scalar(mode: EnumOf(TransmissionMode), crc: EnumOf(CrcFlag), large: EnumOf(LargeFileFlag),
                               segctrl: EnumOf(SegmentationControl), we: W, ws: W, src: Int, seq: Int, dst: Int,
@@ -511,7 +531,7 @@ def fin_rt_list(mode, crc, large, src, seq, dst, tail, fv, items, suffix):
     fin_rt_clauses(pdu, raw, suffix, conf, cc, dc, fs, fw, fv, items)
 
 
-@obligation(["C06", "C09", "C04"], "FinishedPdu/roundtrip-list1", bounded="list length <= 1, file names and filestore message <= 80 octets each",
+@obligation(["C06", "C09", "C04"], "FinishedPdu/roundtrip-list1", max_paths=4000, branch_timeout_ms=120, bounded="list length <= 1, file names and filestore message <= 80 octets each",
             verifies=[FIN + "FinishedPdu.unpack", FIN + "FinishedPdu._unpack_tlvs", FIN + "FinishedPdu.__eq__"])
 def finished_roundtrip_list1(mode: EnumOf(TransmissionMode), crc: EnumOf(CrcFlag), large: EnumOf(LargeFileFlag), src: Int, seq: Int, dst: Int,
                              tail: FIN_TAIL, fv: Int, items: ListOf(FS_ITEM, 1), suffix: Bytes):
@@ -520,7 +540,7 @@ def finished_roundtrip_list1(mode: EnumOf(TransmissionMode), crc: EnumOf(CrcFlag
     fin_rt_list(mode, crc, large, src, seq, dst, tail, fv, items, suffix)
 
 
-@obligation(["C06", "C09", "C04"], "FinishedPdu/roundtrip-list2",
+@obligation(["C06", "C09", "C04"], "FinishedPdu/roundtrip-list2", max_paths=4000, branch_timeout_ms=120,
             bounded="list length == 2, file names and filestore message <= 80 octets each, second item: one non-empty name, non-empty message; fault location present",
             verifies=[FIN + "FinishedPdu.unpack", FIN + "FinishedPdu._unpack_tlvs", FIN + "FinishedPdu.__eq__"])
 def finished_roundtrip_list2(mode: EnumOf(TransmissionMode), crc: EnumOf(CrcFlag), large: EnumOf(LargeFileFlag), src: Int, seq: Int, dst: Int,
@@ -531,3 +551,488 @@ def finished_roundtrip_list2(mode: EnumOf(TransmissionMode), crc: EnumOf(CrcFlag
     (action1, stc1, n1, n2, msg1) = item1
     requires(both(not two_names(action1), len(n1) > 0, len(msg1) > 0))
     fin_rt_list(mode, crc, large, src, seq, dst, tail, fv, [item0, item1], suffix)
+
+
+def no_filestore_response_tlv(data, start, end):
+    """restriction of the arbitrary-input harness of FinishedPdu.unpack: none of the TLVs the decoder walks over is a filestore
+    response (type 1).  FileStoreResponseTlv.unpack (cfdp/tlv/tlv.py, under another contract file and owner) indexes past short
+    input (IndexError) - with such TLVs the raises-only clause below fails for a reason outside finished.py.  The walk: a TLV
+    starts at `start`; an entity-ID TLV (type 6) is followed by the next TLV, every other type ends the walk (refusal)."""
+    i = start
+    k = 0
+    while k < 7 and i < end:
+        requires(data[i] != 1)
+        if data[i] != 6 or i + 1 >= end:
+            break
+        i = i + 2 + data[i + 1]
+        k = k + 1
+
+
+def finished_arbitrary_clauses(data):
+    o = outcome(FinishedPdu.unpack, data)
+    ensures("raises-only", o.ok or o.raised(ValueError, InvalidCrc, UnsupportedCfdpVersion))
+    if o.ok:
+        g = o.value
+        n = decoded_pdu_facts(g, data)
+        hl = hdr_len_of(data)
+        ensures("params-inside-pdu", hl + 2 + 2 * bits(data[0], 1, 1) <= n)
+        ensures("codes", both(g.condition_code == bits(data[hl + 1], 7, 4), g.delivery_code == bits(data[hl + 1], 2, 2),
+                              g.file_status == bits(data[hl + 1], 1, 0)))
+        o2 = outcome(FinishedPdu.unpack, data[0:n])
+        ensures("prefix-only", both(o2.ok, same_state(g, o2.value)))
+
+
+def finished_unpack_arbitrary_short(data):
+    """ANY octet string whose declared data-field length has no room for the parameter octet: every header, every buffer length"""
+    if len(data) >= 3:
+        requires(data[1] * 256 + data[2] < 2 + 2 * bits(data[0], 1, 1))
+    finished_arbitrary_clauses(data)
+
+
+FIN_ARB = dict(bounded="declared data field too short for the parameter octet", verifies=[FIN + "FinishedPdu.unpack"], max_paths=4000, branch_timeout_ms=120)
+
+
+@obligation(["C06", "C09", "C10", "C04"], "FinishedPdu.unpack/arbitrary-short-idw1", **FIN_ARB)
+def finished_unpack_arbitrary_1(data: Bytes):
+    id_width_code_in(data, 0, 2)
+    finished_unpack_arbitrary_short(data)
+
+
+@obligation(["C06", "C09", "C10", "C04"], "FinishedPdu.unpack/arbitrary-short-idw2", **FIN_ARB)
+def finished_unpack_arbitrary_2(data: Bytes):
+    id_width_code_in(data, 1, 4)
+    finished_unpack_arbitrary_short(data)
+
+
+@obligation(["C06", "C09", "C10", "C04"], "FinishedPdu.unpack/arbitrary-short-idw4", **FIN_ARB)
+def finished_unpack_arbitrary_4(data: Bytes):
+    id_width_code_in(data, 3, 5)
+    finished_unpack_arbitrary_short(data)
+
+
+@obligation(["C06", "C09", "C10", "C04"], "FinishedPdu.unpack/arbitrary-short-idw8", **FIN_ARB)
+def finished_unpack_arbitrary_8(data: Bytes):
+    id_width_code_in(data, 7, 6)
+    finished_unpack_arbitrary_short(data)
+
+
+@obligation(["C06", "C09", "C10", "C04"], "FinishedPdu.unpack/arbitrary-tlvs",
+            bounded="valid fixed header with 2-octet entity IDs and 1-octet sequence number; declared TLV area <= 6 octets; "
+                    "no filestore-response TLVs (see no_filestore_response_tlv)",
+            verifies=[FIN + "FinishedPdu.unpack", FIN + "FinishedPdu._unpack_tlvs"], max_paths=4000, branch_timeout_ms=120)
+def finished_unpack_arbitrary_tlvs(direction: EnumOf(Direction), mode: EnumOf(TransmissionMode), crc: EnumOf(CrcFlag),
+                                   large: EnumOf(LargeFileFlag), src: Int, seq: Int, dst: Int, area: IntRange(0, 6), rest: Bytes):
+    """a well-formed fixed header (any flags; arbitrary headers are the subject of C05 and of arbitrary-short-*) that declares a TLV
+    area of 0..6 octets, followed by ANY octets.  A PDU with several entity-ID TLVs is accepted by the library (the last one is kept,
+    the reported length then differs from the declared one) - the statement does not speak about such input, so only raises-only,
+    the CRC gate and the independence of the octets behind the declared PDU are demanded"""
+    we = 2
+    ws = 1
+    requires(ids_in_range(we, ws, src, seq, dst))
+    hl = 4 + 2 * we + ws
+    n = hl + 2 + area + crc_len(crc)
+    data = pdu_header_octets(0, direction, mode, crc, large, 2 + area + crc_len(crc), 0, 0, we, ws, src, seq, dst) + rest
+    if len(data) >= n:
+        no_filestore_response_tlv(data, hl + 2, hl + 2 + area)
+    o = outcome(FinishedPdu.unpack, data)
+    ensures("raises-only", o.ok or o.raised(ValueError, InvalidCrc, UnsupportedCfdpVersion))
+    if o.ok:
+        g = o.value
+        ensures("inside-buffer", n <= len(data))
+        ensures("crc-gate", implies(crc == 1, crc16(data[0:n]) == 0))
+        ensures("codes", both(g.condition_code == bits(data[hl + 1], 7, 4), g.delivery_code == bits(data[hl + 1], 2, 2),
+                              g.file_status == bits(data[hl + 1], 1, 0)))
+        ensures("no-responses", g.file_store_responses == [])
+        o2 = outcome(FinishedPdu.unpack, data[0:n])
+        ensures("prefix-only", both(o2.ok, same_state(g, o2.value)))
+
+
+def fin_setter_clauses(pdu, fresh, conf, snap):
+    ensures("caller-config-untouched", same_state(conf, snap))
+    ensures("lengths-as-fresh", both(pdu.packet_len == fresh.packet_len,
+                                     pdu.pdu_header.pdu_data_field_len == fresh.pdu_header.pdu_data_field_len))
+    ensures("equal-to-fresh", both(pdu == fresh, fresh == pdu))
+    raw = pdu.pack()
+    ensures("octets-as-fresh", raw == fresh.pack())
+    ensures("packet_len", pdu.packet_len == len(raw))
+    ensures("data-field-len", pdu.pdu_header.pdu_data_field_len == len(raw) - pdu.pdu_header.header_len)
+    ensures("pack-twice", pdu.pack() == raw)
+    ensures("still-equal", pdu == fresh)
+
+
+FIN_START = Choice((ConditionCode.NO_ERROR, None), (ConditionCode.NO_ERROR, 2), (ConditionCode.FILESTORE_REJECTION, None),
+                   (ConditionCode.FILESTORE_REJECTION, 2))
+
+
+@obligation(["C11", "C06"], "FinishedPdu/setters", bounded="list length <= 1, file names and filestore message <= 80 octets each",
+            verifies=[FIN + "FinishedPdu.file_store_responses", FIN + "FinishedPdu.fault_location",
+                      FIN + "FinishedPdu._calculate_directive_field_len", FIN + "FinishedPdu.file_store_responses_len",
+                      FIN + "FinishedPdu.fault_location_len"])
+def finished_setters(mode: EnumOf(TransmissionMode), crc: EnumOf(CrcFlag), large: EnumOf(LargeFileFlag), src: Int, seq: Int, dst: Int,
+                     start: FIN_START, dc: EnumOf(DeliveryCode), fs: EnumOf(FileStatus), fv0: Int, items0: ListOf(FS_ITEM, 1),
+                     fw1: OptionalOf(Choice(4)), fv1: Int, items1: OptionalOf(ListOf(FS_ITEM, 1))):
+    """fault_location and file_store_responses setters (any condition code: the length must also be right when the fault location is
+    not transmitted) == freshly built PDU with the final values; reported length == packed length"""
+    we = 1
+    ws = 2
+    (cc, fw0) = start
+    requires(ids_in_range(we, ws, src, seq, dst))
+    conf = mk_conf(we, ws, src, seq, dst, mode, crc, large, Direction.TOWARDS_SENDER, SegmentationControl.NO_RECORD_BOUNDARIES_PRESERVATION)
+    snap = snapshot(conf)
+    pdu = FinishedPdu(conf, FinishedParams(cc, dc, fs, mk_responses(items0), mk_fault_location(fw0, fv0)))
+    fault1 = mk_fault_location(fw1, fv1)
+    pdu.fault_location = fault1
+    final = []
+    if items1 is None:
+        pdu.file_store_responses = None
+    else:
+        final = mk_responses(items1)
+        pdu.file_store_responses = final
+    ensures("accessors", both(is_same(pdu.fault_location, fault1), pdu.file_store_responses == final))
+    fresh = FinishedPdu(conf, FinishedParams(cc, dc, fs, final, fault1))
+    fin_setter_clauses(pdu, fresh, conf, snap)
+
+
+@obligation(["C11", "C06"], "FinishedPdu/setters-list2", bounded="list length == 2, file names and filestore message <= 80 octets each",
+            verifies=[FIN + "FinishedPdu.file_store_responses", FIN + "FinishedPdu.fault_location",
+                      FIN + "FinishedPdu._calculate_directive_field_len", FIN + "FinishedPdu.file_store_responses_len"])
+def finished_setters_list2(mode: EnumOf(TransmissionMode), crc: EnumOf(CrcFlag), large: EnumOf(LargeFileFlag), src: Int, seq: Int, dst: Int,
+                           dc: EnumOf(DeliveryCode), fs: EnumOf(FileStatus), fv: Int, item0: FS_ITEM, item1: FS_ITEM, fault_first: Bool):
+    """two responses set on a PDU that had a fault location only; the two setters in either order"""
+    we = 1
+    ws = 2
+    cc = ConditionCode.FILESTORE_REJECTION
+    requires(ids_in_range(we, ws, src, seq, dst))
+    conf = mk_conf(we, ws, src, seq, dst, mode, crc, large, Direction.TOWARDS_SENDER, SegmentationControl.NO_RECORD_BOUNDARIES_PRESERVATION)
+    snap = snapshot(conf)
+    pdu = FinishedPdu(conf, FinishedParams(cc, dc, fs, [], mk_fault_location(2, fv)))
+    final = mk_responses([item0, item1])
+    if fault_first:
+        pdu.fault_location = None
+        pdu.file_store_responses = final
+    else:
+        pdu.file_store_responses = final
+        pdu.fault_location = None
+    fresh = FinishedPdu(conf, FinishedParams(cc, dc, fs, final, None))
+    fin_setter_clauses(pdu, fresh, conf, snap)
+
+
+# ------------------------------------------------------------------------------------------------------------------
+# Metadata
+# ------------------------------------------------------------------------------------------------------------------
+# file names of at most 80 octets in the list-free harnesses (z3 does not build models with long sequences in reasonable time)
+NAME = StrLen(80)
+
+
+def name_octets(name):
+    """an absent file name is the empty LV"""
+    if name is None:
+        return b""
+    return name.encode("utf-8")
+
+
+def name_accessor_ok(got, name):
+    """the accessor reports None for the empty name (absent and empty are the same wire value)"""
+    if name is None:
+        return got is None
+    if len(name.encode("utf-8")) == 0:
+        return got is None
+    return got == name
+
+
+@obligation(["C06", "C11", "C04"], "MetadataPdu.pack/scalar",
+            verifies=[MD + "MetadataPdu.__init__", MD + "MetadataPdu.pack", MD + "MetadataPdu._calculate_directive_field_len"])
+def metadata_pack_scalar(direction: EnumOf(Direction), mode: EnumOf(TransmissionMode), crc: EnumOf(CrcFlag), large: EnumOf(LargeFileFlag),
+                         segctrl: EnumOf(SegmentationControl), we: W, ws: W, src: Int, seq: Int, dst: Int,
+                         cl: IntRange(0, 1), cksum: EnumOf(ChecksumType), size: Int, sname: NAME, dname: NAME):
+    """no options: every header configuration, every file size that fits the file-size field (others: MetadataPdu.pack/file-size)"""
+    requires(ids_in_range(we, ws, src, seq, dst))
+    closure = cl == 1     # a symbolic bool: no case split
+    requires(fss_fits(large, size))
+    conf = mk_conf(we, ws, src, seq, dst, mode, crc, large, direction, segctrl)
+    params = MetadataParams(closure, cksum, size, sname, dname)
+    snap = snapshot(conf)
+    psnap = snapshot(params)
+    pdu = MetadataPdu(conf, params)
+    ensures("caller-config-untouched", same_state(conf, snap))
+    o = outcome(pdu.pack)
+    fits = fss_fits(large, size)
+    ensures("not-fitting-refused", implies(not fits, o.raised(ValueError, struct.error)))
+    ensures("fitting-accepted", implies(fits, o.ok))
+    if o.ok:
+        raw = o.value
+        ensures("packet_len", pdu.packet_len == len(raw))
+        ensures("data-field-len", pdu.pdu_header.pdu_data_field_len == len(raw) - (4 + 2 * we + ws))
+        layout_clauses(raw, crc, directive_body(TOWARDS_RECEIVER, mode, crc, large, segctrl, we, ws, src, seq, dst,
+                                                metadata_params(cl, cksum, large, size, name_octets(sname), name_octets(dname), b"")))
+        ensures("accessors", both(pdu.closure_requested == closure, pdu.checksum_type == cksum, pdu.file_size == size,
+                                  pdu.options is None, pdu.crc_flag == crc, pdu.file_flag == large,
+                                  pdu.direction == Direction.TOWARDS_RECEIVER, pdu.directive_type == 7))
+        ensures("pack-twice", pdu.pack() == raw)
+    ensures("caller-objects-untouched", both(same_state(conf, snap), same_state(params, psnap)))
+
+
+@obligation(["C06"], "MetadataPdu.pack/file-size", verifies=[MD + "MetadataPdu.pack"])
+def metadata_pack_file_size(crc: EnumOf(CrcFlag), large: EnumOf(LargeFileFlag), closure: Bool, cksum: EnumOf(ChecksumType), size: Int,
+                            sname: NAME, dname: NAME):
+    """file size over all integers: packing succeeds iff it fits the 32 / 64 bit field, and never truncates"""
+    conf = mk_conf(1, 1, 1, 2, 3, TransmissionMode.ACKNOWLEDGED, crc, large, Direction.TOWARDS_RECEIVER,
+                   SegmentationControl.NO_RECORD_BOUNDARIES_PRESERVATION)
+    pdu = MetadataPdu(conf, MetadataParams(closure, cksum, size, sname, dname))
+    o = outcome(pdu.pack)
+    fits = fss_fits(large, size)
+    ensures("not-fitting-refused", implies(not fits, o.raised(ValueError, struct.error)))
+    ensures("fitting-accepted", implies(fits, o.ok))
+    if o.ok:
+        ensures("file-size-field", o.value[9:9 + fss_len(large)] == fss(large, size))
+
+
+@obligation(["C06", "C11"], "MetadataPdu.pack/names", verifies=[MD + "MetadataPdu.__init__", MD + "MetadataPdu.pack",
+                                                                 MD + "MetadataPdu.source_file_name", MD + "MetadataPdu.dest_file_name"])
+def metadata_pack_names(mode: EnumOf(TransmissionMode), crc: EnumOf(CrcFlag), large: EnumOf(LargeFileFlag), src: Int, seq: Int, dst: Int,
+                        closure: Bool, cksum: EnumOf(ChecksumType), size: Int, sname: OptionalOf(NAME), dname: OptionalOf(NAME)):
+    """absent (None) and empty file names are the empty LV; the name accessors report None for both (one width pair)"""
+    we = 4
+    ws = 1
+    requires(ids_in_range(we, ws, src, seq, dst))
+    requires(fss_fits(large, size))
+    conf = mk_conf(we, ws, src, seq, dst, mode, crc, large, Direction.TOWARDS_RECEIVER, SegmentationControl.NO_RECORD_BOUNDARIES_PRESERVATION)
+    params = MetadataParams(closure, cksum, size, sname, dname)
+    psnap = snapshot(params)
+    pdu = MetadataPdu(conf, params)
+    raw = pdu.pack()
+    ensures("packet_len", pdu.packet_len == len(raw))
+    cl = 0
+    if closure:
+        cl = 1
+    layout_clauses(raw, crc, directive_body(TOWARDS_RECEIVER, mode, crc, large, 0, we, ws, src, seq, dst,
+                                            metadata_params(cl, cksum, large, size, name_octets(sname), name_octets(dname), b"")))
+    ensures("name-accessors", both(name_accessor_ok(pdu.source_file_name, sname), name_accessor_ok(pdu.dest_file_name, dname)))
+    ensures("caller-params-untouched", same_state(params, psnap))
+
+
+# options: generic TLVs (any of the six TLV types, value of at most 80 octets)
+OPT_ITEM = TupleOf(EnumOf(TlvType), BytesLen(0, 80))
+OPTIONS = ListOf(OPT_ITEM, 2)
+OPT_BOUND = "list length <= 2, TLV values <= 80 octets, file names <= 80 octets"
+
+
+def mk_options(items):
+    return [CfdpTlv(t, v) for (t, v) in items]
+
+
+def options_octets(items):
+    r = b""
+    for (t, v) in items:
+        r = r + tlv(t, v)
+    return r
+
+
+def closure_bit(closure):
+    if closure:
+        return 1
+    return 0
+
+
+@obligation(["C06", "C11", "C04"], "MetadataPdu.pack/list", bounded=OPT_BOUND,
+            verifies=[MD + "MetadataPdu.__init__", MD + "MetadataPdu.pack", MD + "MetadataPdu._calculate_directive_field_len"])
+def metadata_pack_list(mode: EnumOf(TransmissionMode), crc: EnumOf(CrcFlag), large: EnumOf(LargeFileFlag), src: Int, seq: Int,
+                       dst: Int, closure: Bool, cksum: EnumOf(ChecksumType), size: Int, sname: NAME, dname: NAME, items: OPTIONS):
+    """options of any type and value (one width pair, all pairs in MetadataPdu.pack/scalar)"""
+    we = 8
+    ws = 1
+    requires(ids_in_range(we, ws, src, seq, dst))
+    requires(fss_fits(large, size))
+    conf = mk_conf(we, ws, src, seq, dst, mode, crc, large, Direction.TOWARDS_RECEIVER, SegmentationControl.NO_RECORD_BOUNDARIES_PRESERVATION)
+    options = mk_options(items)
+    pdu = MetadataPdu(conf, MetadataParams(closure, cksum, size, sname, dname), options)
+    raw = pdu.pack()
+    ensures("packet_len", pdu.packet_len == len(raw))
+    ensures("data-field-len", pdu.pdu_header.pdu_data_field_len == len(raw) - (4 + 2 * we + ws))
+    layout_clauses(raw, crc, directive_body(TOWARDS_RECEIVER, mode, crc, large, 0, we, ws, src, seq, dst,
+                                            metadata_params(closure_bit(closure), cksum, large, size, name_octets(sname), name_octets(dname),
+                                                            options_octets(items))))
+    ensures("accessors", is_same(pdu.options, options))
+    ensures("pack-twice", pdu.pack() == raw)
+
+
+def md_rt_clauses(pdu, raw, suffix, conf, closure, cksum, size, sname, dname, items):
+    o = outcome(MetadataPdu.unpack, raw + suffix)
+    ensures("decoded-or-refused", o.ok or o.raised(ValueError, InvalidCrc))
+    ensures("exact-pdu-accepted", implies(len(suffix) == 0, o.ok))
+    if o.ok:
+        g = o.value
+        ensures("rt-params", both(g.closure_requested == closure, g.checksum_type == cksum, g.file_size == size))
+        ensures("rt-names", both(name_accessor_ok(g.source_file_name, sname), name_accessor_ok(g.dest_file_name, dname)))
+        if len(items) == 0:
+            ensures("rt-options", either(g.options is None, g.options == []))
+        else:
+            ensures("rt-option-count", both(g.options is not None, len(g.options) == len(items)))
+            if g.options is not None and len(g.options) == len(items):
+                for (x, (t, v)) in zip(g.options, items):
+                    ensures("rt-option", both(x.tlv_type == t, x.value == v, x.packet_len == 2 + len(v), x.pack() == tlv(t, v)))
+        ensures("rt-header", both(g.pdu_header.pdu_conf == conf, g.direction == Direction.TOWARDS_RECEIVER, g.file_flag == conf.file_flag,
+                                  g.crc_flag == conf.crc_flag, g.transmission_mode == conf.trans_mode, g.directive_type == 7))
+        ensures("rt-lengths", both(g.packet_len == len(raw), g.pdu_header.pdu_data_field_len == pdu.pdu_header.pdu_data_field_len))
+        ensures("rt-equal", both(g == pdu, pdu == g))
+        ensures("rt-repack", g.pack() == raw)
+
+
+@obligation(["C06", "C09", "C04"], "MetadataPdu/roundtrip-scalar", verifies=[MD + "MetadataPdu.unpack", MD + "MetadataPdu.__eq__"],
+            max_paths=4000, branch_timeout_ms=120)
+def metadata_roundtrip_scalar(mode: EnumOf(TransmissionMode), crc: EnumOf(CrcFlag), large: EnumOf(LargeFileFlag),
+                              segctrl: EnumOf(SegmentationControl), we: W, ws: W, src: Int, seq: Int, dst: Int,
+                              closure: Bool, cksum: EnumOf(ChecksumType), size: Int, sname: NAME, dname: NAME, suffix: Bytes):
+    """no options (options=None), non-empty file names: every header configuration"""
+    requires(ids_in_range(we, ws, src, seq, dst))
+    requires(fss_fits(large, size))
+    requires(both(len(sname.encode("utf-8")) > 0, len(dname.encode("utf-8")) > 0))
+    conf = mk_conf(we, ws, src, seq, dst, mode, crc, large, Direction.TOWARDS_RECEIVER, segctrl)
+    pdu = MetadataPdu(conf, MetadataParams(closure, cksum, size, sname, dname))
+    raw = pdu.pack()
+    md_rt_clauses(pdu, raw, suffix, conf, closure, cksum, size, sname, dname, [])
+
+
+@obligation(["C06", "C09", "C04"], "MetadataPdu/roundtrip-names", verifies=[MD + "MetadataPdu.unpack", MD + "MetadataPdu.__eq__"],
+            max_paths=4000, branch_timeout_ms=120)
+def metadata_roundtrip_names(mode: EnumOf(TransmissionMode), crc: EnumOf(CrcFlag), large: EnumOf(LargeFileFlag), src: Int, seq: Int, dst: Int,
+                             closure: Bool, cksum: EnumOf(ChecksumType), size: Int, sname: OptionalOf(NAME), dname: OptionalOf(NAME),
+                             no_options: Choice(None, ()), suffix: Bytes):
+    """absent, empty and non-empty file names; options None or the empty list (one width pair)"""
+    we = 1
+    ws = 4
+    requires(ids_in_range(we, ws, src, seq, dst))
+    requires(fss_fits(large, size))
+    conf = mk_conf(we, ws, src, seq, dst, mode, crc, large, Direction.TOWARDS_RECEIVER, SegmentationControl.NO_RECORD_BOUNDARIES_PRESERVATION)
+    options = None
+    if no_options is not None:
+        options = []
+    pdu = MetadataPdu(conf, MetadataParams(closure, cksum, size, sname, dname), options)
+    raw = pdu.pack()
+    md_rt_clauses(pdu, raw, suffix, conf, closure, cksum, size, sname, dname, [])
+
+
+@obligation(["C06", "C09", "C04"], "MetadataPdu/roundtrip-list", bounded=OPT_BOUND, verifies=[MD + "MetadataPdu.unpack", MD + "MetadataPdu._parse_options",
+                                                                                             MD + "MetadataPdu.__eq__"],
+            max_paths=4000, branch_timeout_ms=120)
+def metadata_roundtrip_list(mode: EnumOf(TransmissionMode), crc: EnumOf(CrcFlag), large: EnumOf(LargeFileFlag), src: Int, seq: Int, dst: Int,
+                            closure: Bool, cksum: EnumOf(ChecksumType), size: Int, sname: NAME, dname: NAME, items: OPTIONS, suffix: Bytes):
+    """options of any type and value (one width pair; a bytes buffer - the list-free harnesses decode bytearrays)"""
+    we = 2
+    ws = 2
+    requires(ids_in_range(we, ws, src, seq, dst))
+    requires(fss_fits(large, size))
+    conf = mk_conf(we, ws, src, seq, dst, mode, crc, large, Direction.TOWARDS_RECEIVER, SegmentationControl.NO_RECORD_BOUNDARIES_PRESERVATION)
+    pdu = MetadataPdu(conf, MetadataParams(closure, cksum, size, sname, dname), mk_options(items))
+    raw = bytes(pdu.pack())
+    md_rt_clauses(pdu, raw, suffix, conf, closure, cksum, size, sname, dname, items)
+
+
+def md_arbitrary_clauses(data):
+    o = outcome(MetadataPdu.unpack, data)
+    ensures("raises-only", o.ok or o.raised(ValueError, InvalidCrc, UnsupportedCfdpVersion))
+    if o.ok:
+        g = o.value
+        n = hdr_len_of(data) + data[1] * 256 + data[2]
+        hl = hdr_len_of(data)
+        f = 4 + 4 * bits(data[0], 0, 0)
+        ensures("inside-buffer", n <= len(data))
+        ensures("crc-gate", implies(bits(data[0], 1, 1) == 1, crc16(data[0:n]) == 0))
+        ensures("params-inside-pdu", hl + 2 + f + 2 + 2 * bits(data[0], 1, 1) <= n)
+        ensures("params", both(g.closure_requested == (bits(data[hl + 1], 6, 6) == 1), g.checksum_type == bits(data[hl + 1], 3, 0),
+                               g.file_size == from_be(data[hl + 2:hl + 2 + f])))
+        o2 = outcome(MetadataPdu.unpack, data[0:n])
+        ensures("prefix-only", both(o2.ok, same_state(g, o2.value)))
+
+
+def metadata_unpack_arbitrary_short(data):
+    """ANY octet string whose declared data-field length is below that of the smallest Metadata PDU (two empty names, no options):
+    every header, every buffer length"""
+    if len(data) >= 3:
+        requires(data[1] * 256 + data[2] < 2 + (4 + 4 * bits(data[0], 0, 0)) + 2 + 2 * bits(data[0], 1, 1))
+    md_arbitrary_clauses(data)
+
+
+MD_ARB = dict(bounded="declared data field shorter than the smallest Metadata PDU", verifies=[MD + "MetadataPdu.unpack"], max_paths=4000,
+              branch_timeout_ms=120)
+
+
+@obligation(["C06", "C09", "C10", "C04"], "MetadataPdu.unpack/arbitrary-short-idw1", **MD_ARB)
+def metadata_unpack_arbitrary_1(data: Bytes):
+    id_width_code_in(data, 0, 2)
+    metadata_unpack_arbitrary_short(data)
+
+
+@obligation(["C06", "C09", "C10", "C04"], "MetadataPdu.unpack/arbitrary-short-idw2", **MD_ARB)
+def metadata_unpack_arbitrary_2(data: Bytes):
+    id_width_code_in(data, 1, 4)
+    metadata_unpack_arbitrary_short(data)
+
+
+@obligation(["C06", "C09", "C10", "C04"], "MetadataPdu.unpack/arbitrary-short-idw4", **MD_ARB)
+def metadata_unpack_arbitrary_4(data: Bytes):
+    id_width_code_in(data, 3, 5)
+    metadata_unpack_arbitrary_short(data)
+
+
+@obligation(["C06", "C09", "C10", "C04"], "MetadataPdu.unpack/arbitrary-short-idw8", **MD_ARB)
+def metadata_unpack_arbitrary_8(data: Bytes):
+    id_width_code_in(data, 7, 6)
+    metadata_unpack_arbitrary_short(data)
+
+
+@obligation(["C06", "C09", "C10", "C04"], "MetadataPdu.unpack/arbitrary-params",
+            bounded="valid fixed header with 1-octet entity IDs and 2-octet sequence number; declared area behind the file size <= 6 octets",
+            verifies=[MD + "MetadataPdu.unpack", MD + "MetadataPdu._parse_options"], max_paths=4000, branch_timeout_ms=120)
+def metadata_unpack_arbitrary_params(direction: EnumOf(Direction), mode: EnumOf(TransmissionMode), crc: EnumOf(CrcFlag),
+                                     large: EnumOf(LargeFileFlag), src: Int, seq: Int, dst: Int, area: IntRange(0, 6), rest: Bytes):
+    """a well-formed fixed header (any flags; arbitrary headers: C05 and arbitrary-short-*) that declares 0..6 octets (0, 1: too short) behind the
+    file-size field (file name LVs and option TLVs), followed by ANY octets"""
+    we = 1
+    ws = 2
+    requires(ids_in_range(we, ws, src, seq, dst))
+    data = pdu_header_octets(0, direction, mode, crc, large, 2 + fss_len(large) + area + crc_len(crc), 0, 0, we, ws, src, seq, dst) + rest
+    md_arbitrary_clauses(data)
+
+
+@obligation(["C11", "C06"], "MetadataPdu/setters", bounded=OPT_BOUND,
+            verifies=[MD + "MetadataPdu.options", MD + "MetadataPdu.source_file_name", MD + "MetadataPdu.dest_file_name",
+                      MD + "MetadataPdu._calculate_directive_field_len"])
+def metadata_setters(mode: EnumOf(TransmissionMode), crc: EnumOf(CrcFlag), large: EnumOf(LargeFileFlag), src: Int, seq: Int, dst: Int,
+                     closure: Bool, cksum: EnumOf(ChecksumType), size: Int, sname0: NAME, dname0: NAME, item0: OPT_ITEM,
+                     sname1: OptionalOf(NAME), dname1: NAME, items1: OptionalOf(OPTIONS), options_first: Bool):
+    """options, source_file_name and dest_file_name setters == freshly built PDU with the final values; reported length == packed
+    length.  (The caller's MetadataParams object keeps the names it was built with - the setters only change the PDU.)"""
+    we = 2
+    ws = 8
+    requires(ids_in_range(we, ws, src, seq, dst))
+    requires(fss_fits(large, size))
+    conf = mk_conf(we, ws, src, seq, dst, mode, crc, large, Direction.TOWARDS_RECEIVER, SegmentationControl.NO_RECORD_BOUNDARIES_PRESERVATION)
+    params = MetadataParams(closure, cksum, size, sname0, dname0)
+    snap = snapshot(conf)
+    psnap = snapshot(params)
+    pdu = MetadataPdu(conf, params, mk_options([item0]))
+    final = None
+    if items1 is not None:
+        final = mk_options(items1)
+    if options_first:
+        pdu.options = final
+        pdu.source_file_name = sname1
+        pdu.dest_file_name = dname1
+    else:
+        pdu.dest_file_name = dname1
+        pdu.source_file_name = sname1
+        pdu.options = final
+    ensures("caller-objects-untouched", both(same_state(conf, snap), same_state(params, psnap)))
+    ensures("accessors", both(name_accessor_ok(pdu.source_file_name, sname1), name_accessor_ok(pdu.dest_file_name, dname1),
+                              is_same(pdu.options, final)))
+    fresh = MetadataPdu(conf, MetadataParams(closure, cksum, size, sname1, dname1), final)
+    ensures("lengths-as-fresh", both(pdu.packet_len == fresh.packet_len,
+                                     pdu.pdu_header.pdu_data_field_len == fresh.pdu_header.pdu_data_field_len))
+    ensures("equal-to-fresh", both(pdu == fresh, fresh == pdu))
+    raw = pdu.pack()
+    ensures("octets-as-fresh", raw == fresh.pack())
+    ensures("packet_len", pdu.packet_len == len(raw))
+    ensures("data-field-len", pdu.pdu_header.pdu_data_field_len == len(raw) - pdu.pdu_header.header_len)
+    ensures("pack-twice", pdu.pack() == raw)
+    ensures("still-equal", pdu == fresh)
